@@ -16,7 +16,8 @@
 4. "pair" rows: the same cases run again with a stale rerun file planted at the formatter's output path; the file
    that is left is fed back ("@file" as the only input) and a second real run records which scenarios are entered.
 Every second pair row and two of three synth rows are rendered with prog["dupnames"] (all scenarios share one name), so
-the feed-back must select by location, never by name.  All multiprocessing Pools are finished before TLC is started.
+the feed-back must select by location, never by name; every second multi-feature row with prog["revfiles"] (run order of
+the files differs from the alphabetical order of their names; the judge takes the run order from the recorded call-outs).  All multiprocessing Pools are finished before TLC is started.
 TLC (Rerun_Trace) judges all rows: which scenarios are unsuccessful is computed there from the recorded final
 statuses.  Python renders, runs, records."""
 import io
@@ -200,6 +201,8 @@ def synth_case(job):
         prog = synth_prog(case["sh"])
         if job.get("dupnames"):
             prog["dupnames"] = True
+        if job.get("revfiles"):
+            prog["revfiles"] = True
         flat = G.flatten(prog)
         if [e["kind"] for e in flat["elems"]] != case["kinds"] or [e["parent"] for e in flat["elems"]] != case["parents"]:
             raise RuntimeError("element table of the emitted shape and of gen.flatten differ")
@@ -351,6 +354,7 @@ def describe(meta, row):
         d["model"] = {k: meta["case"][k] for k in ("sh", "ss", "hk")}
         d["show_skipped"] = meta["show"]
         d["dupnames"] = meta.get("dupnames", False)
+        d["revfiles"] = meta.get("revfiles", False)
     return json.dumps(d, sort_keys=True)
 
 
@@ -361,7 +365,8 @@ def judge(chk, rows, metas):
     for rid, vs in sorted(verdicts.items()):
         for v in vs:
             meta, row = metas[rid], byid[rid]
-            payload = {"kind": row["kind"], "show": meta.get("show", True), "dupnames": meta.get("dupnames", False)}
+            payload = {"kind": row["kind"], "show": meta.get("show", True), "dupnames": meta.get("dupnames", False),
+                       "revfiles": meta.get("revfiles", False)}
             if "job" in meta:
                 payload["job"] = {k: meta["job"][k] for k in ("key", "prog", "cfg", "fault", "fault_kind")}
             else:
@@ -388,10 +393,19 @@ def run(chk):
     # (no thread is alive while a Pool forks: a child must not inherit a lock held by a TLC thread).
     # Every second pair row is rendered with prog["dupnames"]: all scenarios are called `S`, all outlines `O`, so the
     # feed-back is only right if it selects by location, never by name.
-    jobs, planned = plan_jobs(chk, 1200 if quick else 20000)
-    rjobs = [dict(j, reports=True, plugins=["c17"]) for j in jobs]
+    jobs, planned = plan_jobs(chk, 1200 if quick else 16000)
+    # Every second multi-feature run / pair row is rendered with prog["revfiles"]: the feature files are handed to the
+    # runner in the order f2, f1, f0, so run order and alphabetical order of the paths differ.
+    def variant(j, dup, rev):
+        extra = {}
+        if dup:
+            extra["dupnames"] = True
+        if rev and len(j["prog"]["features"]) > 1:
+            extra["revfiles"] = True
+        return dict(j, prog=dict(j["prog"], **extra)) if extra else j
+    rjobs = [dict(variant(j, False, n % 2 == 0), reports=True, plugins=["c17"]) for n, j in enumerate(jobs)]
     run_out = stage.drive_all(rjobs, procs=PROCS)
-    pjobs = [dict(j, prog=dict(j["prog"], dupnames=True)) if n % 2 == 0 else j for n, j in enumerate(jobs)]
+    pjobs = [variant(j, n % 2 == 0, (n // 2) % 2 == 0) for n, j in enumerate(jobs)]
     pair_out = pmap(pair_case, pjobs)
     # 1. design level
     r = chk.tlc("Rerun_MC", "Rerun_MC_quick.cfg" if quick else "Rerun_MC_thorough.cfg", timeout=3000,
@@ -404,22 +418,25 @@ def run(chk):
     # 2. the real formatter on emitted models
     small = [c for c in emitted if len(c["ss"]) <= 2]
     rest = [c for c in emitted if len(c["ss"]) > 2]
-    nrest = 700 if quick else 12000
+    nrest = 600 if quick else 9000
     if len(rest) > nrest:
         rest = rnd.sample(rest, nrest)
+    if quick and len(small) > 1000:
+        small = rnd.sample(small, 1000)
     sjobs = []
     for c in small + rest:
         dup = len(sjobs) % 3 != 0                  # two of three models: every scenario has the same name
-        sjobs.append({"key": ["synth", len(sjobs)], "case": c, "show": True, "dupnames": dup})
+        rev = len(c["sh"]) > 1 and (len(sjobs) // 3) % 2 == 0     # every second two-feature model: files f1, f0
+        sjobs.append({"key": ["synth", len(sjobs)], "case": c, "show": True, "dupnames": dup, "revfiles": rev})
         if c["hidden"]["ann"] != c["shown"]["ann"]:
-            sjobs.append({"key": ["synth", len(sjobs)], "case": c, "show": False, "dupnames": dup})
+            sjobs.append({"key": ["synth", len(sjobs)], "case": c, "show": False, "dupnames": dup, "revfiles": rev})
     synth_out = pmap(synth_case, sjobs)
     for o in run_out + pair_out + synth_out:
         if "driver_error" in o:
             raise RuntimeError("driver failed on %s:\n%s" % (o["key"], o["driver_error"]))
     rows, metas = [], {}
     not_judged = 0
-    for job, o in zip(jobs, run_out):
+    for job, o in zip(rjobs, run_out):
         rep = o["reports"].get("c17", {})
         if "projection_error" in rep or not rep:
             raise RuntimeError("plug-in c17 failed on %s:\n%s" % (job["key"], rep.get("projection_error")))
@@ -439,7 +456,7 @@ def run(chk):
     for job, o in zip(sjobs, synth_out):
         rid = len(rows) + 1
         rows.append(dict(o["row"], id=rid))
-        metas[rid] = {"case": job["case"], "show": job["show"], "dupnames": job["dupnames"], "raw": o["raw"]}
+        metas[rid] = {"case": job["case"], "show": job["show"], "dupnames": job["dupnames"], "revfiles": job["revfiles"], "raw": o["raw"]}
         if o["diffs"]:
             sdiv.append({"row": rid, "model": {k: job["case"][k] for k in ("sh", "ss", "hk")}, "diff": o["diffs"][:2]})
     verdicts = judge(chk, rows, metas)
@@ -461,6 +478,9 @@ def run(chk):
     chk.extra["rows_with_feed_back"] = sum(1 for x in rows if x["loop"]["done"])
     chk.extra["rows_with_second_run"] = sum(1 for x in rows if x["loop"]["ran2done"])
     chk.extra["rows_not_judged_run_died"] = not_judged
+    chk.extra["multi_file_rows_with_file_and_reversed_file_names"] = sum(
+        1 for x in with_file if len({l["f"] for l in x["file"]["lines"]}) > 1 and
+        (metas[x["id"]].get("revfiles") or metas[x["id"]].get("job", {}).get("prog", {}).get("revfiles")))
     chk.extra["feed_back_rows_with_identical_scenario_names"] = \
         sum(1 for x in rows if x["loop"]["done"] and (metas[x["id"]].get("dupnames") or metas[x["id"]].get("job", {}).get("prog", {}).get("dupnames")))
     chk.extra["rows_dry_run"] = sum(1 for x in rows if x["cfg"]["dry"])
@@ -491,7 +511,8 @@ def replay(chk, payload):
     rp = payload["replay"]
     rows, metas = [], {}
     if rp["kind"] == "synth":
-        o = synth_case({"key": ["replay"], "case": rp["case"], "show": rp.get("show", True), "dupnames": rp.get("dupnames", False)})
+        o = synth_case({"key": ["replay"], "case": rp["case"], "show": rp.get("show", True), "dupnames": rp.get("dupnames", False),
+                        "revfiles": rp.get("revfiles", False)})
         if "driver_error" in o:
             raise RuntimeError(o["driver_error"])
         rows.append(dict(o["row"], id=1))
